@@ -255,6 +255,7 @@ def check_C08(ctx):
     selftest_hooks(ctx, behs[-20:])
     ctx.traces += run_replays(ctx, 'C08', behs, flags, CLASSES[:3], 'c08')
     gated_numbering(ctx)
+    stress_numbering(ctx)
     # crash recoveries: the committed crash programs (large, fragmented entries; unsynced log) and two generated ones, stopped at
     # hook sites incl. torn final writes; after the recovery the numbering must continue behind the surviving operations
     # (TRACE_Durable!TObs: seq = number of surviving operations; then further writes, reopen, observed again).  The
@@ -269,6 +270,51 @@ def check_C08(ctx):
                    'behaviours drawn by TLC simulation of GEN_Store (no log retirement) replayed under 3 configuration classes; after every '
                    'call storage_last_sequence must equal the number the specification assigns, and at the end the whole log directory is '
                    'read back: groups of equal numbers = issued operations in issue order, numbers strictly increasing')
+
+
+def stress_numbering(ctx):
+    """Free-running writers against a flush path that rotates the log every few writes (no gates, real parallelism): the windows
+    that have no hook site inside them - two lock acquisitions in a row - are reached only this way.  The hook-event stream of
+    each run must keep the numbering rules of TRACE_StoreProto."""
+    import subprocess
+    runs = 8 if ctx.quick() else 32
+
+    def one(i):
+        d = ctx.sub(f'c08-stress-{i}')
+        hooks = os.path.join(d, 'hooks.ndjson')
+        if os.path.exists(hooks):
+            os.remove(hooks)
+        import shutil
+        shutil.rmtree(os.path.join(d, 'db'), ignore_errors=True)
+        cfg = json.dumps({'memtable_size': [200, 400, 120][i % 3], 'max_memtables': 3, 'sync_mode': [0, 2, 1][i % 3], 'sync_bytes': 300, 'compact_sec': 3600})
+        args = [ctx.kvh(), 'lin-run', '-dir', os.path.join(d, 'db'), '-out', os.path.join(d, 'trace.ndjson'), '-seed', str(ctx.seed * 100 + i),
+                '-clients', '8', '-ops', str(500 if ctx.quick() else 1500), '-keys', '4', '-cfg', cfg]
+        p = subprocess.run(args, capture_output=True, text=True, timeout=300, env=dict(os.environ, VERIF_TRACE=hooks))
+        if not os.path.exists(hooks):
+            raise Infra(f'stress run {i} left no hook stream: rc={p.returncode} {p.stderr[-300:]}')
+        # the log's part of the stream only: with compaction and flush writing table files at the same time the monitor's table rules
+        # (one table writer at a time, as in the replays) do not apply, and they are not the subject here
+        keep = [x for x in open(hooks).read().splitlines() if not any(t in x for t in ('"site":"sst.', '"site":"cmp.', '"site":"sm.flush.table.'))]
+        open(hooks, 'w').write('\n'.join(keep) + '\n')
+        ok, hw, st, outp = tlc_trace(ctx, 'TRACE_StoreProto', 'TRACE_StoreProto.cfg', hooks, timeout=900, tag=f'c08-stress-{i}')
+        n = len(keep)
+        if ok:
+            return n, None
+        lines = open(hooks).read().splitlines()
+        ev = json.loads(lines[hw - 1]) if hw and hw <= len(lines) else {}
+        return n, f"free-running writers and flushes (run {i}): the numbering rules are broken at event {ev.get('site')}(a={ev.get('a')}, b={ev.get('b')})"
+    with cf.ThreadPoolExecutor(max_workers=8) as ex:
+        res = list(ex.map(one, range(runs)))
+    ctx.traces += runs
+    ctx.notes['stress_hook_events_validated'] = sum(n for n, _ in res)
+    bad = [(i, w) for i, (n, w) in enumerate(res) if w]
+    if bad:
+        # the window is a matter of scheduling: any further run of the same kind that breaks the rules again counts as reproduction
+        again = [one(100 + k)[1] for k in range(8)] if len(bad) < 2 else [w for _, w in bad[1:]]
+        if any(again):
+            ctx.violations.append({'what': bad[0][1], 'replay': save_replay(ctx, 'store-stress', {'stress': True, 'run': bad[0][0]})})
+        else:
+            ctx.unreproduced.append({'what': bad[0][1]})
 
 
 def selftest_seq(ctx, behs, flags):
@@ -329,6 +375,13 @@ def nontrivial_c12(ctx, behs):
 
 
 def replay_saved(ctx, payload):
+    if payload.get('stress'):
+        ctx.violations = []
+        stress_numbering(ctx)
+        return {'what': ctx.violations[0]['what']} if ctx.violations else None
+    if 'prog' in payload:
+        from props import crash
+        return crash.replay_saved(ctx, payload)
     if 'site' in payload:
         ctx.violations = []
         gated_numbering(ctx)
